@@ -208,6 +208,11 @@ structure Family (F : List DG) : Prop where
   wf : ∀ d ∈ F, d.wf
   keys : ∀ d ∈ F, ∀ d' ∈ F, makeKey d.hdr = makeKey d'.hdr → d = d'
 
+/-- stored fragments that tile `[e, …)` without hole or overlap -/
+def contiguous : Nat → List Frag → Prop
+  | _, [] => True
+  | e, f :: r => f.off = e ∧ contiguous (f.off + f.payload.length) r
+
 /-- the upper-layer parsers the run-time correspondence uses (the ones the harness generates payloads for):
     UDP (8-byte header), TCP without options, and protocols libtins has no class for (`RawPDU`).
     `none` = `malformed_packet`.  Protocols 1, 4, 41, 50, 51, 58 are not generated. -/
